@@ -189,6 +189,12 @@ def check(ctx):
             f = K.method(nme)
             bad = stores_through(f, param_aliases(f))
             ctx.inst('R4', f, 'no-store-through-inputs', not bad, 'inputs are modified through %s' % bad)
+            # ... and nothing is kept on the class between calls: these are classmethods, an attribute written here is shared by every
+            # alignment in the process (two alignments at once - or a result read back from the class - mix their transformations)
+            kept = [norm(t)[:40] for x in walk_own(f.node) if isinstance(x, (ast.Assign, ast.AugAssign, ast.AnnAssign))
+                    for t in (x.targets if isinstance(x, ast.Assign) else [x.target])
+                    if isinstance(t, ast.Attribute) and isinstance(t.value, ast.Name) and t.value.id in ('cls', 'self', K.name)]
+            ctx.inst('R4', f, 'no-state-on-the-class', not kept, 'attributes written on the class / instance: %s' % kept)
     ss = S.method('_scale_system')
     calls = [c for c in ast.walk(ss.node) if method_call(c, 'scale')]
     ok = len(calls) == 2
